@@ -16,7 +16,8 @@ RELATIONS = ["oplus-vs-reference", "matrix-homomorphism", "ominus-vs-reference",
              "pose-oplus-point", "boxplus-is-oplus-of-compact", "to_matrix-vs-reference", "from_matrix-roundtrip", "iadd-rebinds", "copy-independent", "accessors-consistent"]
 RULE = ("cases from rng(seed, 9, 0, i): pose kind = i mod 4; operands a,b,c, a point and an increment from hostile classes (translations to 1e4/1e6, angles at +-pi, shifted "
         "by 2 pi k, huge; quaternions w<0, w=0, 180 deg, near identity; increments incl. rotational norm exactly 1); 14 relations evaluated per case, and again after the operand objects were modified in place (every 3rd case); every 16th case is an in-situ optimizer run with sampled operator "
-        "observations. distinct = fingerprint of the operands; non-trivial = a and b both have non-zero translation and (SE types) non-identity rotation.")
+        "observations. distinct = fingerprint of the operands; non-trivial = a and b both have non-zero translation and (SE types) non-identity rotation."
+        " later additions: partly coinciding operands, generic array access / copy-module copies, orientation of points, process-wide settings after an optimizer run.")
 REQ = ["eval:" + r for r in RELATIONS if r != "from_matrix-roundtrip"] + ["eval:from_matrix-roundtrip", "class:kind:se3", "class:kind:se2", "class:q:wneg", "class:q:wzero", "class:a:nearpi_in",
                                                                      "insitu_operator_calls_observed", "class:operands_modified_in_place", "class:increment_rotation_norm_exactly_1", "class:integer_dtype_increment", "class:q:single_axis"]
 PLAN = {
